@@ -4,7 +4,7 @@
 EXTENDS EslCodec, Json
 CONSTANTS Tier, Part   \* Tier: "q" | "t"; Part selects the type partition ("all" or one type)
 
-Types == {"x509", "sha256", "extern", "sha1", "unknown"}
+Types == {"x509", "sha256", "extern", "sha1", "unknown", "zeroguid"}    \* zeroguid: the all-zero GUID (with size fields 0 a header of 28 zero bytes: zero fill is not a list)
 PTypes == IF Part = "all" THEN Types ELSE {Part}
 SigSizes == {0, 15, 16, 17, 24, 47, 48, 49, 64, 96, HUGE}      \* 24 x 2 and 96 x 1 fill a body that is a multiple of 48 with another SignatureSize
 Counts == {0, 1, 2}
@@ -42,7 +42,9 @@ BigRecs == {Rec("x509", 65536 - 28, 1, 0, "ok"), Rec("x509", 1048576 - 28, 1, 0,
 BigStreams == {<<b>> : b \in BigRecs} \cup {<<b, r>> : b \in BigRecs, r \in {Rec("sha256", 48, 1, 0, "ok"), Rec("sha256", 48, 2, 0, "minus1"), Rec("x509", 64, 1, 0, "plus1")}}
 BigInit == \E s \in BigStreams, g \in {0, 1, 8} : \E c \in {PhysLen(s) + g, PhysLen(s) + g - 1, PhysLen(SubSeq(s, 1, 1)), PhysLen(SubSeq(s, 1, 1)) + 1, PhysLen(SubSeq(s, 1, 1)) + 27} :
              c >= 0 /\ c <= PhysLen(s) + g /\ Start([s |-> s, g |-> g, cut |-> c])
-NearInit == \E s \in NearStreams, g \in {0, 1, 28} : \E c \in Cuts(s, g) : Start([s |-> s, g |-> g, cut |-> c])
+(* the filler behind the lists is arbitrary bytes or zeros (variable stores and firmware dumps are zero filled) *)
+NearInit == \E s \in NearStreams, g \in {0, 1, 28, 64} : \E c \in Cuts(s, g), gf \in (IF g = 0 THEN {"rand"} ELSE {"rand", "zero"}) :
+              Start([s |-> s, g |-> g, cut |-> c, gfill |-> gf])
 
 (* well-formed streams (C07) *)
 (* content: what the signature payload looks like; the decoder is agnostic to it, which is part of what is checked: *)
@@ -81,7 +83,7 @@ ObsAllowed == pc = "done" =>
 ObsCount == pc = "done" => PrintT(<<"OBS_JUDGED", cs.k, Expect>>)
 
 Emit == pc = "done" =>
-          PrintT(ToJson([s |-> cs.s, g |-> cs.g, cut |-> cs.cut, expect |-> Expect, why |-> why,
+          PrintT(ToJson([s |-> cs.s, g |-> cs.g, gfill |-> (IF "gfill" \in DOMAIN cs THEN cs.gfill ELSE "rand"), cut |-> cs.cut, expect |-> Expect, why |-> why,
                          lists |-> [k \in 1..Len(out) |-> [type |-> out[k].type, sigsize |-> out[k].sigsize,
                                                             hdrsize |-> out[k].hdrsize, n |-> out[k].n, exact |-> out[k].exact]]]))
 =============================================================================
